@@ -127,6 +127,72 @@ func canonicalOnlyListed(c *Ctx, r *Report, rule string) {
 			}
 		})
 	}
+	// a helper that lower-cases through pointers it is given (`*p = CanonicalName(*p)`): every field whose address is
+	// handed to it is a store of a lower-cased name into that field
+	lowersThroughPointers := func(g *ssa.Function) bool {
+		found := false
+		allInstrs(g, func(in ssa.Instruction) {
+			st, ok := in.(*ssa.Store)
+			if !ok {
+				return
+			}
+			if _, isFA := st.Addr.(*ssa.FieldAddr); isFA {
+				return
+			}
+			fromParam := false
+			for v := range sliceOf(st.Addr) {
+				if _, isP := v.(*ssa.Parameter); isP {
+					fromParam = true
+				}
+			}
+			if !fromParam {
+				return
+			}
+			for v := range sliceOf(st.Val) {
+				if cl, isCall := v.(*ssa.Call); isCall && calleeNameSSA(&cl.Call) == "CanonicalName" {
+					found = true
+				}
+			}
+		})
+		return found
+	}
+	allInstrs(fn, func(in ssa.Instruction) {
+		call, ok := in.(*ssa.Call)
+		if !ok {
+			return
+		}
+		g := call.Call.StaticCallee()
+		if g == nil || g.Pkg != fn.Pkg || len(g.Blocks) == 0 || !lowersThroughPointers(g) {
+			return
+		}
+		for _, a := range call.Call.Args {
+			for v := range sliceOf(a) {
+				fa, isFA := v.(*ssa.FieldAddr)
+				if !isFA {
+					continue
+				}
+				if bt, isB := fa.Type().Underlying().(*types.Pointer).Elem().Underlying().(*types.Basic); !isB || bt.Info()&types.IsString == 0 {
+					continue
+				}
+				outer := fa.X
+				for {
+					inner, isInner := outer.(*ssa.FieldAddr)
+					if !isInner {
+						break
+					}
+					outer = inner.X
+				}
+				nt := derefNamed(outer.Type())
+				if nt == nil {
+					continue
+				}
+				n++
+				if !listed[nt.Obj().Name()] {
+					bad = append(bad, fmt.Sprintf("%s: a lower-cased name is stored into %s.%s (through %s)", c.pos(call.Pos()), nt.Obj().Name(), fieldNameOf(fa), g.Name()))
+				}
+			}
+		}
+	})
 	r.check(n >= 21 && len(bad) == 0, rule, "rawSignatureData", c.pos(fn.Pos()), fmt.Sprintf("%d stores, all into listed types", n), "%s: the type is not in the list of RFC 4034 s.6.2 / RFC 6840 s.5.1, its RDATA is signed as sent; signatures made by other implementations over a record with a capital in that name are refused, and a signature over the lower-cased RDATA is accepted for it", strings.Join(uniqStrings(bad), "; "))
 }
 
